@@ -1120,6 +1120,15 @@ func (e *Entry) Augment(addErrors bool) (processed, skipped int) {
 			unapplied = append(unapplied, a)
 			continue
 		}
+		if target.Dir == nil {
+			// Only nodes that can have children can be augmented.
+			if addErrors {
+				e.errorf("%s: augment %s: target cannot have children", Source(a.Node), a.Name)
+			}
+			skipped++
+			unapplied = append(unapplied, a)
+			continue
+		}
 		// Augments do not have a prefix we merge in, just a node.
 		// We retain the namespace from the original context of the
 		// augment since the nodes have this namespace even though they
